@@ -1,9 +1,9 @@
 SPECIFICATION Spec
 CONSTANTS
-  MaxOps = 5
+  MaxOps = 4
   Defect = "none"
   Emit = TRUE
-  WithSource = FALSE
+  WithSource = TRUE
 INVARIANT FlagSound
 INVARIANT Paired
 INVARIANT EmitOK
